@@ -43,7 +43,59 @@ def _fresh(prop, tier, seed, runs, hashseed):
     return out
 
 
+def fidelity(seed, runs):
+    """Stub fidelity (DESIGN 11): for configurations whose results do not depend on the schedule, SimParallel under drawn
+    schedules must return exactly what REAL joblib (threading, loky, multiprocessing) returns."""
+    import random
+    from . import gen, kernel, seams
+    from .world import Session, is_contextual
+    rnd = random.Random(kernel.H("fidelity", seed))
+    bad = 0
+    n = runs or 24
+    for i in range(n):
+        lp = gen.gen_lp(rnd)
+        if lp[0] == "EpsilonGreedy" and lp[1]["epsilon"] > 0 and rnd.random() < 0.5:
+            lp[1]["epsilon"] = 0
+        kind, arms, spare = gen.gen_arms(rnd, hi=4)
+        np_ = gen.gen_np(rnd, lp[0], len(arms), allow_probs=False) if rnd.random() < 0.8 else None
+        if np_ and np_[0] == "TreeBandit" and not (lp[0] == "UCB1" or (lp[0] == "EpsilonGreedy" and lp[1]["epsilon"] == 0)):
+            np_ = None      # schedule dependent by the known finding of C05
+        backend = rnd.choice(["threading", "loky", "multiprocessing", None])
+        cfg = {"arms": arms, "lp": lp, "np": np_, "seed": rnd.randrange(2 ** 20), "n_jobs": rnd.choice([2, 3]),
+               "backend": backend}
+        ctxl = is_contextual(cfg)
+        d = rnd.randint(1, 3)
+        rk = gen.reward_kind_for(rnd, cfg, "exact")
+        need = 6
+        ops = [{"op": "fit", "rows": gen.gen_rows(rnd, arms, need + rnd.randint(2, 10), d, "exact", rk, ctxl)},
+               {"op": "partial_fit", "rows": gen.gen_rows(rnd, arms, rnd.randint(1, 8), d, "exact", rk, ctxl)}]
+        Q = gen.gen_Q(rnd, rnd.randint(2, 7), d, "exact") if ctxl else None
+        ops += [{"op": "expect", "Q": Q}, {"op": "predict", "Q": Q}]
+        outs = {}
+        for mode in ("real", "sim"):
+            if mode == "real":
+                seams.uninstall()
+            else:
+                seams.install()
+            kernel.set_ctx(kernel.Ctx(record=False))
+            s = Session(cfg)
+            res = []
+            for op in ops:
+                r = s.apply(op, sched=kernel.Sched.draw(rnd) if mode == "sim" else None)
+                res.append([r[0], kernel.canon(r[1])])
+            outs[mode] = res
+        seams.install()
+        ok = outs["real"] == outs["sim"]
+        bad += 0 if ok else 1
+        print("fidelity %2d %-16s %-11s backend=%-15s n_jobs=%d %s" % (i, lp[0], np_[0] if np_ else "-", backend,
+                                                                       cfg["n_jobs"], "equal" if ok else "DIFFERENT"))
+    print("selftest fidelity: %d configurations, %d differ" % (n, bad))
+    return 2 if bad else 0
+
+
 def main(which, prop, seed, runs):
+    if which == "fidelity":
+        return fidelity(seed, runs)
     props = [prop] if prop else [p for p in ALL if os.path.exists(
         os.path.join(os.path.dirname(__file__), "props", p.lower() + ".py"))]
     runs = runs or 60
